@@ -20,7 +20,7 @@ PROP = dict(
     level_note='Trusts: std:: containers as reference; the refused allocation throws xercesc::OutOfMemoryException; iteration order of XalanMap/'
                'XalanSet is treated as unspecified (compared as sets); operations std allows but the Xalan headers exclude by assertion are not generated.',
     design_ref='DESIGN.md section 7 (C20), 3.1, 5, 6.2',
-    runs=dict(quick=64000, thorough=1000000),
+    runs=dict(quick=64000, thorough=600000),
     nontrivial_counter=['fault:alloc-fail'],
     rule='One evaluation = one history: one container kind, one element type, one mode (A fault-free / B with allocation faults attached to '
          'operations), knobs and 8..80 operations drawn from the run seed; executed operation by operation against the std:: model with a full '
